@@ -26,6 +26,13 @@ def run(op, a):
         res += [m.GetTxid(), m.GetHash()]
         m.vin[0].nSequence = (m.vin[0].nSequence + 1) % (1 << 32)
         res += [m.GetTxid()]
+        # == and hash() of the edited mutable object against a fresh immutable object with the same
+        # fields (elements 5 and 6 stay 1 only if they hold before AND after the edits)
+        snap = CTransaction.from_tx(m)
+        if not (m == snap and snap == m and not (m != snap)) or m == t:
+            res[5] = 0
+        if hash(m) != hash(snap) or hash(m) == hash(t):
+            res[6] = 0
         return res
     if op == 2:
         h, txs = a[0]
